@@ -36,10 +36,119 @@ def run_n2(n2, d, args, timeout=120):
     return p.returncode, p.stdout, p.stderr
 
 
+NOTE_PREFIX = b"Note: including file: "
+
+
+def gen_task_case(rng):
+    showinc = rng.random() < 0.5
+    term = rng.choice([0, 0, 0, 1, 1, 2])
+    lines = []
+    for _ in range(rng.randint(0, 8)):
+        r = rng.random()
+        if r < 0.35:
+            lines.append(NOTE_PREFIX + b" " * rng.randint(0, 2) + rng.choice([b"a.h", b"dir/b.h", "é.h".encode(), b"C:\\x y\\z.h", b""]) + rng.choice([b"", b"\r"]))
+        else:
+            lines.append(rng.choice([b"", b"warning: unused", b"Note: something else", b"\r", b"x" * rng.randint(1, 70), "日本語".encode(), b"\x1b[31mred\x1b[0m", b"\xff\xfe"]))
+    text = b"\n".join(lines) + rng.choice([b"", b"\n", b"\n\n", b"\r\n"])
+    cuts = sorted(rng.sample(range(len(text) + 1), min(len(text) + 1, rng.randint(0, 5)))) if text else []
+    chunks, prev = [], 0
+    for c in cuts + [len(text)]:
+        chunks.append(text[prev:c])
+        prev = c
+    if rng.random() < 0.2:
+        chunks.insert(rng.randint(0, len(chunks)), b"")                   # an empty read
+    chunks = [c for c in chunks] if text or chunks else []
+    # (classified with the real parser: a rule naming two targets before the colon is rejected by n2, ` : x` is accepted)
+    good = [b"o: a.h b.h\n", b"o: a.h \\\n  b.h\n\no2: c.h\n", b"o:\n", b"", b"o: a.h\no: b.h\n", "o: é.h\n".encode(), b"o: a.h\n  : x\n"]
+    bad = [b"o a.h\n", b"o o2: x\n", b"a\\bc\n" + "é".encode() * 30 + b" x\n", b"o: a.h\nnocolon\n"]
+    r = rng.random()
+    written = None if r < 0.4 else (rng.choice(good) if r < 0.8 else rng.choice(bad))
+    stale = rng.choice(good + bad) if rng.random() < 0.15 else None
+    flag_d = written is None and stale is None and rng.random() < 0.4            # a depfile is configured but the command writes none
+    rsp = rng.choice([b"", b"-o x a.o b.o", b"line1\nline2\n", "é".encode() * 10]) if rng.random() < 0.35 else None
+    f = lambda b: "~" if b is None else hexs(b)
+    line = "%d %d %s %s %s %s%s" % (showinc, term, f(stale), f(written), f(rsp), ",".join(hexs(c) for c in chunks) if chunks else "-", " d" if flag_d else "")
+    return line, {"showinc": showinc, "term": term, "stale": stale, "written": written, "rsp": rsp, "chunks": chunks,
+                  "depfile": flag_d or written is not None or stale is not None, "bad": bad}
+
+
+def task_monitor(run, line, m, res):
+    """C16/C09/C15 on what the real run_task returned"""
+    where = {"suite": "task", "case": line, "result": res[:300]}
+    if res.startswith("panic") or res.startswith("abort"):
+        run.report_failure(None, "run_task did not return: %s" % res[:160], where)
+        return
+    seen = res.rsplit(" rsp=", 1)[1]
+    want_seen = "~" if m["rsp"] is None else hexs(m["rsp"])
+    if seen != want_seen:
+        run.report_failure(None, "when the command started its response file held %s, expected %s" % (seen[:60], want_seen[:60]), where)
+    raw = b"".join(m["chunks"])
+    left = m["written"] if m["written"] is not None else m["stale"]
+    if res.startswith("err "):
+        msg = unhexs(res.split()[1])
+        if m["term"] != 0 or left is None or left not in m["bad"]:
+            run.report_failure(None, "run_task failed although the command did not succeed with a malformed depfile: %r" % msg[:100], where)
+        elif b"DEPFILE" not in msg or not msg.startswith(b"parse error: "):
+            run.report_failure(None, "the depfile parse error does not name the depfile: %r" % msg[:100], where)
+        return
+    if m["term"] == 0 and left is not None and left in m["bad"]:
+        run.report_failure(None, "a malformed depfile did not fail the step", where)
+        return
+    w = res.split(" ")
+    out, deps, lines = unhexs(w[2]), w[3], w[4][len("lines="):]
+    if int(w[1]) != m["term"]:
+        run.report_failure(None, "termination %s reported for a command that ended with %d" % (w[1], m["term"]), where)
+    notes = [l for l in raw.split(b"\n") if l.startswith(NOTE_PREFIX)]
+    if not m["showinc"]:
+        if out != raw:
+            run.report_failure(None, "the output kept (%d bytes) is not what the command wrote (%d bytes)" % (len(out), len(raw)), where)
+    else:
+        if any(l.startswith(NOTE_PREFIX) for l in out.split(b"\n")):
+            run.report_failure(None, "a /showIncludes line is left in the output", where)
+        rest = b"\n".join(l for l in raw.split(b"\n") if not l.startswith(NOTE_PREFIX))
+        if out != rest:
+            run.report_failure(None, "the output kept differs from the command's other lines", where)
+    uses_depfile = m["term"] == 0 and m["depfile"]
+    if not uses_depfile:
+        if m["showinc"]:
+            if deps == "~" or (len(deps[1:-1].split(",")) if deps != "[]" else 0) != len(notes):
+                run.report_failure(None, "%d notes in the output but the reported dependencies are %s" % (len(notes), deps[:80]), where)
+        elif deps != "~":
+            run.report_failure(None, "dependencies reported (%s) by a command without depfile or notes%s" % (deps[:60], " that failed" if m["term"] else ""), where)
+    elif left is None and deps != "[]":
+        run.report_failure(None, "a missing depfile does not count as empty: %s" % deps[:80], where)
+    ll = [unhexs(x) for x in lines.split(",")] if lines else []
+    if len(ll) != len(m["chunks"]) and not (len(m["chunks"]) == 1 and lines == "-" ) and not (lines == "" and not m["chunks"]):
+        if not (lines == "-" and len(m["chunks"]) == 1):
+            pass
+    if any(b"\n" in l or b"\r" in l for l in ll):
+        run.report_failure(None, "a last-output line contains a line break", where)
+
+
+def task_leg(run, rng, tier, drv):
+    har, out = build_harness()
+    if har is None:
+        run.tie("harness build", out[-2000:])
+        return {}
+    n = 3000 if tier == "quick" else 30000
+    cases = [gen_task_case(rng) for _ in range(n)]
+    lines = [c[0] for c in cases]
+    impl, model, bad = differential(run, "task::run_task / read_depfile", har, drv, "task", "task", lines)
+    for (l, m), r in zip(cases, impl):
+        task_monitor(run, l, m, r)
+    return {"run_task_cases": len(lines), "run_task_disagreements": len(bad), "run_task_errors": sum(1 for r in impl if r.startswith("err ")),
+            "run_task_with_notes": sum(1 for _, m in cases if m["showinc"]), "run_task_failing_commands": sum(1 for _, m in cases if m["term"])}
+
+
 def main(tier, seed, replay=None):
     run = Run(PROP, tier, seed, "proof")
     rng = random.Random(seed)
     info, problems = proof_gate(PROP, THEOREMS, thorough=(tier == "thorough"))
+    info2, problems2 = proof_gate_multi(["C16Task"], thorough=(tier == "thorough"))
+    problems = problems + problems2
+    info["obligations"] = info.get("obligations", 0) + info2.get("obligations", 0)
+    info["discharged"] = info.get("discharged", 0) + info2.get("discharged", 0)
+    info["theorems"] = info.get("theorems", []) + info2.get("theorems", [])
     for p in problems:
         run.tie("proof gate", p)
     drv = build_driver()
@@ -265,9 +374,12 @@ def main(tier, seed, replay=None):
                 rc4, len(started4)), where4)
     finally:
         shutil.rmtree(base, ignore_errors=True)
+    # ---- D. task::run_task around scripted commands, against Model/Task.v ----
+    stats.update(task_leg(run, rng, tier, drv))
     run.coverage.update(info)
     run.coverage.update({
-        "checker_cmd": "make -C coq theories/Props/C16.vo && coqc Gate_C16.v",
+        "model_vs_impl_disagreements": stats.get("run_task_disagreements", 0),
+        "checker_cmd": "make -C coq theories/Props/C16.vo theories/Props/C16Task.vo && coqc Gate_C16.v Gate_C16Task.v",
         "trusted_base": TRUSTED_BASE,
         "evaluations": stats["commands"] + stats["output_blocks"] + stats["exit_codes"] + stats["signals"],
         "distinct_nontrivial": len(nontrivial),
@@ -279,7 +391,8 @@ def main(tier, seed, replay=None):
         "samples": samples or [{"note": "none"}],
     })
     run.assumptions += ["PARTIAL BY NATURE: that /bin/sh -c receives the string, that no descriptor leaks, that the kernel delivers every byte and "
-                        "that output is printed once are run-time facts; they are tested here, not proved. Proved: status decoding, output = "
-                        "concatenation of the chunks for every chunking.",
+                        "that output is printed once are run-time facts; they are tested here, not proved. Proved: status decoding, and about "
+                        "task::run_task as a whole (Model/Task.v, compared with the real function around scripted commands): every byte kept in "
+                        "order for every chunking, notes filtered whatever the outcome, depfile read only after success, never a panic.",
                         "the fancy (tty) console is not exercised; DumbConsoleProgress is used because stdout is a pipe"]
     return run.finish()
